@@ -573,8 +573,6 @@ fn run_case(cin: &CaseIn, dir: &str) -> String {
       }
       if !a.block {
         // not drained before shutdown: keeps exactly the first min(cap, routed) accepted
-        let routed_here = k.emits.iter().filter(|e| !e.after_shutdown && v.iter().any(|g| g.thread == e.thread && g.seq == e.seq) || (!e.after_shutdown && spec_delivers(&k, &e.target, e.level, i))).count();
-        let _ = routed_here;
         if v.len() > a.cap { fail(&mut fails, "pipeline:capacity-exceeded", format!("drop appender {} cap {} delivered {}", a.name, a.cap, v.len())); }
         let spec_extra_free = v.iter().all(|g| want.iter().any(|e| e.thread == g.thread && e.seq == g.seq));
         if spec_extra_free && v.len() < a.cap.min(want.len()) && fails.iter().all(|f| !f.0.starts_with("route:")) {
